@@ -17,5 +17,6 @@ class Search(FilterFunction):
         try:
             # re.search caches compiled patterns internally
             return bool(re.search(pattern, string))
-        except (TypeError, re.error):
+        except (TypeError, re.error, OverflowError):
+            # OverflowError for a repetition count that is too large.
             return False
